@@ -24,6 +24,7 @@ time-series-regressor scitype the `(n_variables × window_length)` panel entry, 
 scitype the single flattened row (represented as a one-variable instance `[row]`).
 -/
 import SkVerif.Model.FH
+import SkVerif.Model.Split
 namespace SkVerif.Reduce
 
 inductive Err | value | type | notimpl | assert | index | attr
@@ -34,6 +35,7 @@ structure Vals (α : Type) where
   zero : α            -- np.zeros padding
   nan : α             -- np.nan returned by `_predict_nan`
   bad : α → Bool      -- np.isnan(v) or np.isinf(v)
+  isnan : α → Bool    -- pd.isna(v): what `combine_first` fills from the older data
 
 abbrev Inst (α : Type) := List (List α)
 
@@ -402,41 +404,98 @@ def fit (V : Vals α) (R : Regressor α) (fc : Fc α) (t0 : Int) (y : List α) (
                   fitted := true, ests := ests, nfit := fc.nfit + jobs.length },
         jobs.map fun j => Call.fit j.1 j.2)
 
-/-- `update(y_new, X_new, update_params)` for a batch that continues the index contiguously -/
-def update (V : Vals α) (R : Regressor α) (fc : Fc α) (yNew : List α) (XNew : Option (List (List α)))
+/-- `new.combine_first(old)` on the overlap of two aligned blocks: the new value wins unless it is NaN -/
+def pickNew (V : Vals α) (n o : α) : α := if V.isnan n then o else n
+
+/-- aligned merge of the tail of the stored data with a new block (both start at the same label) -/
+def mergeTail {β : Type} (pick : β → β → β) : List β → List β → List β
+  | [], ns => ns
+  | os, [] => os
+  | o :: os, n :: ns => pick n o :: mergeTail pick os ns
+
+/-- `new.combine_first(old)` for a contiguous block `new` whose first label sits `off` positions after the
+first stored label (`off ≤ old.length`: overlapping or directly continuing) -/
+def mergeAt {β : Type} (pick : β → β → β) (off : Nat) (old new : List β) : List β :=
+  old.take off ++ mergeTail pick (old.drop off) new
+
+/-- `update(y_new, X_new, update_params)` for a contiguous batch whose first label is `u0`
+(`t0 ≤ u0 ≤ t0 + len`: it re-states stored observations and/or continues the series).
+The cutoff moves to the batch's last label — also when that lies before the end of what is stored. -/
+def update (V : Vals α) (R : Regressor α) (fc : Fc α) (u0 : Int) (yNew : List α) (XNew : Option (List (List α)))
     (refit : Bool) : Except Err (Fc α × List (Call α)) :=
   -- `check_y_X(y, X, allow_empty=True)` still calls `check_X(X)` with allow_empty=False
   if yNew.isEmpty && XNew.isSome then .error .value else
   let fc1 : Fc α :=
     if yNew.isEmpty then fc
-    else { fc with y := fc.y ++ yNew, cutoff := fc.cutoff + yNew.length,
-                   X := match fc.X, XNew with
-                     | some a, some b => some (a ++ b)
-                     | a, _ => a }
+    else
+      let off := (u0 - fc.t0).toNat
+      { fc with y := mergeAt (pickNew V) off fc.y yNew, cutoff := u0 + yNew.length - 1,
+                X := match fc.X, XNew with
+                  | some a, some b => some (mergeAt (List.zipWith (pickNew V)) off a b)
+                  | a, _ => a }
   if refit then
     match fc1.fh with
     | none => .error .value                                                -- `self.fh` property
     | some fh => fit V R fc1 fc1.t0 fc1.y fc1.X (some fh)
   else .ok (fc1, [])
 
-/-- `predict(fh, X)` → (predict calls, forecast as (label, value) list) -/
-def predict (V : Vals α) (fc : Fc α) (fh : Option (List Int)) (Xp : Option (List (List α))) :
-    Except Err (List (Call α) × List (Int × α)) := do
-  let fh' ← setFh (requiredFh fc.strategy) fc.fitted fc.fh fh
-  match fh' with
-  | none => .error .value
-  | some fh =>
-    if !allOut fh then .error .notimpl                                     -- `_predict_in_sample`
-    else
-      let wl := fc.wl_.getD 0
-      let (yLast, XLast) := lastWindow fc.t0 fc.cutoff wl fc.y fc.X
-      let nc := xCols fc.X
+/-- `_predict(fh, X)` of `_BaseWindowForecaster` for a relative horizon → (predict calls, forecast as (label, value) list) -/
+def predictCore (V : Vals α) (fc : Fc α) (fh : List Int) (Xp : Option (List (List α))) :
+    Except Err (List (Call α) × List (Int × α)) :=
+  if !allOut fh then .error .notimpl                                     -- `_predict_in_sample`
+  else
+    let wl := fc.wl_.getD 0
+    let (yLast, XLast) := lastWindow fc.t0 fc.cutoff wl fc.y fc.X
+    let nc := xCols fc.X
+    do
       let r ← match fc.strategy with
         | .direct => pure (directPredict V fc.sci wl fc.ests yLast XLast nc fh)
         | .multioutput => pure (multiPredict V fc.sci wl fc.ests yLast XLast nc fh)
         | .recursive => recursivePredict V fc.sci wl fc.ests fc.X.isSome yLast XLast Xp fh
         | .dirrec => dirrecPredict V fc.sci wl fc.ests yLast Xp fh
       pure (r.1, List.zipWith (fun h v => (fc.cutoff + h, v)) fh r.2)      -- pd.Series(y_pred, index=fh.to_absolute(cutoff))
+
+/-- `predict(fh, X)` -/
+def predict (V : Vals α) (fc : Fc α) (fh : Option (List Int)) (Xp : Option (List (List α))) :
+    Except Err (List (Call α) × List (Int × α)) := do
+  let fh' ← setFh (requiredFh fc.strategy) fc.fitted fc.fh fh
+  match fh' with
+  | none => .error .value
+  | some fh => predictCore V fc fh Xp
+
+/-- loop of `_predict_moving_cutoff`: for every training window of the splitter,
+`update(y.iloc[window], None, update_params)` then `_predict(fh, None)` -/
+def updatePredictLoop (V : Vals α) (R : Regressor α) (fh : List Int) (u0 : Int) (yNew : List α) (refit : Bool) :
+    List Split.Fold → Fc α → List (Call α) × Except Err (Fc α)
+  | [], fc => ([], .ok fc)
+  | fold :: rest, fc =>
+    let a := (fold.1.head?.getD 0).toNat
+    let block := (yNew.drop a).take fold.1.length                          -- y.iloc[new_window]
+    match update V R fc (u0 + (a : Int)) block none refit with
+    | .error e => ([], .error e)
+    | .ok (fc1, c1) =>
+      match predictCore V fc1 fh none with
+      | .error e => (c1, .error e)
+      | .ok (c2, _) =>
+        let r := updatePredictLoop V R fh u0 yNew refit rest fc1
+        (c1 ++ c2 ++ r.1, r.2)
+
+/-- `update_predict(y_new, cv=None, X=None, update_params)` of `_BaseWindowForecaster` (default
+`SlidingWindowSplitter(fh, window_length_, start_with_window=False)`): the cutoff is moved to just
+before the new data, every growing/sliding window is fed through update + predict, and afterwards the
+cutoff is RESTORED while the remembered series keeps everything that was fed.
+Returns the regressor calls and the forecaster left behind (the returned frame is not modelled). -/
+def updatePredict (V : Vals α) (R : Regressor α) (fc : Fc α) (u0 : Int) (yNew : List α) (refit : Bool) :
+    List (Call α) × Except Err (Fc α) :=
+  match fc.fh with
+  | none => ([], .error .value)
+  | some fh =>
+    if yNew.isEmpty then ([], .error .index) else                          -- `y.index[0]` of empty new data
+    match Split.windowSplit .sliding yNew.length fh ((fc.wl_.getD 0 : Nat) : Int) 1 none false with
+    | .error _ => ([], .error .value)
+    | .ok folds =>
+      let r := updatePredictLoop V R fh u0 yNew refit folds { fc with cutoff := u0 - 1 }
+      (r.1, r.2.map fun fc' => { fc' with cutoff := fc.cutoff })
 
 /-- stage at which a history stopped -/
 inductive Stage | fit | update | predict
@@ -445,10 +504,12 @@ inductive Stage | fit | update | predict
 /-- what to do between fit and predict -/
 inductive Upd (α : Type)
   | no
-  | batch (y : List α) (X : Option (List (List α))) (refit : Bool)
+  | batch (u0 : Int) (y : List α) (X : Option (List (List α))) (refit : Bool)
+  | updPredict (u0 : Int) (y : List α) (refit : Bool)
 
-/-- `make_reduction(R, strategy, wl, scitype).fit(y, X, fhFit)`, optional `update`, `.predict(fhPred, Xp)`;
-returns every call the regressor clones received, in order, and the forecast or the error with its stage. -/
+/-- `make_reduction(R, strategy, wl, scitype).fit(y, X, fhFit)`, optional `update` / `update_predict`,
+`.predict(fhPred, Xp)`; returns every call the regressor clones received, in order, and the forecast or
+the error with its stage. -/
 def run (V : Vals α) (R : Regressor α) (s : Strategy) (sci : Scitype) (wl : WLRaw) (t0 : Int)
     (y : List α) (X : Option (List (List α))) (fhFit : Option (List Int)) (upd : Upd α)
     (fhPred : Option (List Int)) (Xp : Option (List (List α))) :
@@ -457,13 +518,17 @@ def run (V : Vals α) (R : Regressor α) (s : Strategy) (sci : Scitype) (wl : WL
   match fit V R fc0 t0 y X fhFit with
   | .error e => ([], .error (e, .fit))
   | .ok (fc1, c1) =>
-    let u : Except Err (Fc α × List (Call α)) :=
+    let u : List (Call α) × Except Err (Fc α) :=
       match upd with
-      | .no => .ok (fc1, [])
-      | .batch yn xn refit => update V R fc1 yn xn refit
+      | .no => ([], .ok fc1)
+      | .batch u0 yn xn refit =>
+        match update V R fc1 u0 yn xn refit with
+        | .error e => ([], .error e)
+        | .ok (fc2, c2) => (c2, .ok fc2)
+      | .updPredict u0 yn refit => updatePredict V R fc1 u0 yn refit
     match u with
-    | .error e => (c1, .error (e, .update))
-    | .ok (fc2, c2) =>
+    | (c2, .error e) => (c1 ++ c2, .error (e, .update))
+    | (c2, .ok fc2) =>
       match predict V fc2 fhPred Xp with
       | .error e => (c1 ++ c2, .error (e, .predict))
       | .ok (c3, out) => (c1 ++ c2 ++ c3, .ok out)
